@@ -425,17 +425,36 @@ impl CallStack {
         main_content_container: &Rc<Container>,
         j_obj: &Map<String, serde_json::Value>,
     ) -> Result<(), StoryError> {
-        self.threads.clear();
+        let j_threads = j_obj
+            .get("threads")
+            .ok_or(StoryError::BadJson("threads not found".to_owned()))?;
 
-        let j_threads = j_obj.get("threads").unwrap();
-
-        for j_thread_tok in j_threads.as_array().unwrap().iter() {
-            let j_thread_obj = j_thread_tok.as_object().unwrap();
+        // Build the new threads aside, so that a rejected save leaves the call stack as it was
+        let mut threads: Vec<Thread> = Vec::new();
+        for j_thread_tok in json_read::token_array(j_threads, "threads")?.iter() {
+            let j_thread_obj = json_read::token_object(j_thread_tok, "thread")?;
             let thread = Thread::from_json(main_content_container, j_thread_obj)?;
-            self.threads.push(thread);
+            if thread.callstack.is_empty() {
+                return Err(StoryError::BadJson(
+                    "thread without call stack elements".to_owned(),
+                ));
+            }
+            threads.push(thread);
         }
 
-        self.thread_counter = j_obj.get("threadCounter").unwrap().as_i64().unwrap() as usize;
+        if threads.is_empty() {
+            return Err(StoryError::BadJson("call stack without threads".to_owned()));
+        }
+
+        let thread_counter = json_read::token_usize(
+            j_obj
+                .get("threadCounter")
+                .ok_or(StoryError::BadJson("threadCounter not found".to_owned()))?,
+            "threadCounter",
+        )?;
+
+        self.threads = threads;
+        self.thread_counter = thread_counter;
         self.start_of_root = Pointer::start_of(main_content_container.clone()).clone();
 
         Ok(())
